@@ -204,6 +204,10 @@ func (c *VerifCtl) WALHeadPath() string { return c.cs.wal.group.Head.Path }
 func (c *VerifCtl) Abandon() {
 	verifCtls.Delete(c.cs)
 	if c.cs.wal != nil {
+		// a tick of the group's 5-second ticker may already be queued: make it a no-op, the
+		// harness removes the directory afterwards
+		c.cs.wal.group.SetHeadSizeLimit(0)
+		c.cs.wal.group.SetTotalSizeLimit(0)
 		c.cs.wal.Stop()
 		c.cs.wal.group.Head.Close()
 	}
